@@ -128,7 +128,7 @@ def applicable(kind, pset, shape):
     return True
 
 
-def build_case(cid, kind, pset, shape, feats, usage, awaits):
+def build_case(cid, kind, pset, shape, feats, usage, awaits, decor=0):
     p = PARAMS[pset]
     rty, tail, sels, is_result, display_ok = SHAPES[shape]
     fieldnames = [f[0] for f in p["fields"]]
@@ -173,7 +173,18 @@ def build_case(cid, kind, pset, shape, feats, usage, awaits):
     elif usage == 2:
         use = p["read"]
     is_async = kind != "sync"
+    # decorations of the item that the attribute has to carry over unchanged (plain fn / async fn only)
+    if kind not in ("sync", "async"):
+        decor = 0
+    if decor == 4 and (p["generics"] or pset in ("impl",)):
+        decor = 1
+    vis = "pub(crate)" if decor == 1 else "pub"
+    extra_attrs = '#[inline]\n    #[doc = "documented"]\n    ' if decor == 1 else ""
+    unsafety = "unsafe " if decor == 2 else ""
+    where = " where u32: Copy" if decor == 3 else ""
     body = ['eff("body:start");']
+    if decor == 4:
+        body.append('eff(&format!("N={}", N));')
     if is_async and awaits >= 1:
         body.append("let _local = Tok::new(90);")
         body.append("yield_now().await;")
@@ -188,13 +199,15 @@ def build_case(cid, kind, pset, shape, feats, usage, awaits):
     out_ty = rty if rty else "()"
     attr = "#[tracing::instrument(%s)]" % ", ".join(f["text"] for f in feats) if feats else "#[tracing::instrument]"
     generics = p["generics"]
+    if decor == 4:
+        generics = "<const N: usize>"
 
     def fn(fname, attrline):
         params = p["params"]
         if kind == "sync":
-            return "%s\n    pub fn %s%s(%s)%s {\n        %s\n    }" % (attrline, fname, generics, params, ret_decl, body)
+            return "%s\n    %s%s %sfn %s%s(%s)%s%s {\n        %s\n    }" % (attrline, extra_attrs, vis, unsafety, fname, generics, params, ret_decl, where, body)
         if kind == "async":
-            return "%s\n    pub async fn %s%s(%s)%s {\n        %s\n    }" % (attrline, fname, generics, params, ret_decl, body)
+            return "%s\n    %s%s async %sfn %s%s(%s)%s%s {\n        %s\n    }" % (attrline, extra_attrs, vis, unsafety, fname, generics, params, ret_decl, where, body)
         lt = ""
         g = generics
         bound = ""
@@ -220,10 +233,14 @@ def build_case(cid, kind, pset, shape, feats, usage, awaits):
 
     if p["method"]:
         twins = "impl Recv {\n    %s\n    %s\n}" % (fn("plain_%d" % cid, "#[allow(clippy::all)]"), fn("inst_%d" % cid, attr))
-        call_plain, call_inst = "recv.plain_%d(%s)" % (cid, p["args"]), "recv.inst_%d(%s)" % (cid, p["args"])
+        tf = "::<3>" if decor == 4 else ""
+        call_plain, call_inst = "recv.plain_%d%s(%s)" % (cid, tf, p["args"]), "recv.inst_%d%s(%s)" % (cid, tf, p["args"])
     else:
         twins = "    %s\n    %s" % (fn("plain", "#[allow(clippy::all)]"), fn("inst", attr))
-        call_plain, call_inst = "plain(%s)" % p["args"], "inst(%s)" % p["args"]
+        tf = "::<3>" if decor == 4 else ""
+        call_plain, call_inst = "plain%s(%s)" % (tf, p["args"]), "inst%s(%s)" % (tf, p["args"])
+    if decor == 2:
+        call_plain, call_inst = "unsafe { %s }" % call_plain, "unsafe { %s }" % call_inst
     has_err = ctx["has_err"]
     outfn = "out_split" if (is_result and has_err) else ("out_disp" if (display_ok and not is_result) else "out_whole")
 
@@ -234,7 +251,7 @@ def build_case(cid, kind, pset, shape, feats, usage, awaits):
         return ("    pub fn mk_%s() -> BoxFut {\n        Box::pin(async move {\n        %s\n        let r = %s.await;\n        %s(&r)\n        })\n    }"
                 % (which, p["setup"], call, outfn))
 
-    desc = "%s | params=%s | shape=%s | usage=%d awaits=%d | %s" % (kind, pset, shape, usage, awaits, attr)
+    desc = "%s | params=%s | shape=%s | usage=%d awaits=%d decor=%s | %s" % (kind, pset, shape, usage, awaits, ["none", "attrs+pub(crate)", "unsafe", "where", "const-generic"][decor], attr)
     mod = ("#[allow(unused_variables, unused_mut, unreachable_code, clippy::all)]\npub mod c%d {\n    use crate::rt::*;\n    pub const MP: &str = module_path!();\n    #[allow(unused_imports)]\n    use std::{future::Future, pin::Pin};\n%s\n%s\n%s\n}\n"
            % (cid, twins, driver("plain", call_plain), driver("inst", call_inst)))
     ev = lambda e: "None" if e is None else "Some((%s, %s))" % (rs(e[0]), "true" if e[1] else "false")
@@ -262,7 +279,7 @@ def plan(big):
         if key in seen or not applicable(kind, pset, shape):
             return False
         seen.add(key)
-        out.append((kind, pset, shape, feats, usage, awaits))
+        out.append((kind, pset, shape, feats, usage, awaits, len(out) % 5))
         return True
 
     psets, shapes = list(PARAMS), list(SHAPES)
